@@ -104,6 +104,11 @@ fn run_history(dir: &Path, mode: Mode, ops: &[Op], layer: &str, extra_sig: &[(&s
             out.reopens += 1;
             let d = db.take().unwrap();
             let before = prev.clone();
+            // is the pre-close dump itself trustworthy?  After statements ran in this life, compare the node count of the
+            // dump path (iter_nodes) with the statement path (MATCH): if they disagree the in-memory state is already
+            // inconsistent (another property's subject) and an otherwise unexplained difference is named after that.
+            let stmt_in_life = ops[life_start..i].iter().any(|o| matches!(o, Op::Query(_) | Op::TxCommit | Op::TxRollback | Op::SessionCreateNode));
+            let paths_disagree = stmt_in_life && d.session().execute("MATCH (n) RETURN n").map(|r| r.rows.len()).ok() != Some(before.node_ids().len());
             let closed = if matches!(op, Op::CloseOpen) { vcore::catch(|| d.close().map_err(|e| e.to_string())) } else { Ok(Ok(())) };
             let dropped = vcore::catch(move || drop(d));
             if let Err(p) = &dropped {
@@ -164,7 +169,8 @@ fn run_history(dir: &Path, mode: Mode, ops: &[Op], layer: &str, extra_sig: &[(&s
                                 Op::SetNodeProp(_, v) | Op::SetEdgeProp(_, v) => val_name(*v).to_string(),
                                 _ => "none".to_string(),
                             };
-                            (attribution(ops[j].class(), later_cp), value)
+                            let a = attribution(ops[j].class(), later_cp);
+                            (if a.starts_with("logged-op:") && paths_disagree { "in-memory-access-paths-disagree".to_string() } else { a }, value)
                         }
                         Some(_) => ("earlier-life".to_string(), "none".to_string()),
                         None => ("unexplained".to_string(), "none".to_string()),
